@@ -59,6 +59,30 @@ def run_refcache(case):
                 for i in got:
                     if (ref_of(syms[i]), syms[i].at_end) != naive[i]:
                         bad.append(("get_references leaves a wrong direct reference", op, i))
+            elif k == "pg":
+                # a generator that its caller abandons after `op[2]` symbols (any / all stopping early)
+                it = cache.get_references(blocks[op[1]])
+                took, exhausted = [], False
+                for _ in range(op[2]):
+                    try:
+                        took.append(next(it))
+                    except StopIteration:
+                        exhausted = True          # the generator ran to its end after all: this was a complete get_references
+                        break
+                it.close()
+                del it
+                op[3][:] = sorted(sid[id(s)] for s in took)
+                out.append(f"took {len(took)}")
+                if exhausted:
+                    want = sorted(i for i, (r, _) in naive.items() if r == op[1])
+                    if op[3] != want:
+                        bad.append(("get_references", op, list(op[3]), want))
+                    op[3].insert(0, "x")
+                for i in op[3][1:] if exhausted else op[3]:
+                    if naive[i][0] != op[1]:
+                        bad.append(("get_references (abandoned) yields a symbol that does not refer to the block", op, i))
+                    elif (ref_of(syms[i]), syms[i].at_end) != naive[i]:
+                        bad.append(("get_references (abandoned) leaves a wrong direct reference", op, i))
             elif k == "gf":
                 r = cache.get_referent(syms[op[1]])
                 got = None if r is None else bid[id(r)]
@@ -116,6 +140,11 @@ def refcache_line(case):
             parts.append(f"sr {op[1]} {-1 if op[2] is None else op[2]} {1 if op[3] else 0}")
         elif op[0] == "ap":
             parts.append("ap")
+        elif op[0] == "pg":
+            if op[3] and op[3][0] == "x":
+                parts.append(f"pgx {op[1]}")
+            else:
+                parts.append(f"pg {op[1]} {len(op[3])} " + " ".join(map(str, op[3])))
         else:
             parts.append(f"{op[0]} {op[1]}")
     return " ".join(parts)
@@ -128,6 +157,8 @@ def refcache_ops(nb, ns, with_none):
             for e in (False, True):
                 ops.append(("rt", b, t, e))
         ops.append(("gr", b))
+        ops.append(("pg", b, 1, []))
+        ops.append(("pg", b, 2, []))
     for s in range(ns):
         ops.append(("gf", s))
         ops.append(("pk", s))
@@ -136,6 +167,11 @@ def refcache_ops(nb, ns, with_none):
             ops.append(("sr", s, r, False))
     ops.append(("ap",))
     return ops
+
+
+def fresh(hist):
+    """every occurrence of an abandoned-generator operation gets its own record of what was yielded"""
+    return [(o[0], o[1], o[2], []) if o[0] == "pg" else o for o in hist]
 
 
 def gen_refcache(rnd, tier):
@@ -147,7 +183,7 @@ def gen_refcache(rnd, tier):
     depth = 3 if tier == "thorough" else 2
     for init in inits:
         for hist in itertools.product(small, repeat=depth):
-            cases.append((init, list(hist), 2))
+            cases.append((init, fresh(hist), 2))
     # random longer histories over 3-4 blocks, 3-5 symbols (chains, cycles, self retargets)
     n = 12000 if tier == "thorough" else 3000
     for _ in range(n):
@@ -158,7 +194,7 @@ def gen_refcache(rnd, tier):
         hist = []
         for _ in range(rnd.randrange(1, 40)):
             hist.append(rnd.choice(rts) if rnd.random() < 0.55 else rnd.choice(allops))
-        cases.append((init, hist, nb))
+        cases.append((init, fresh(hist), nb))
     return cases
 
 
@@ -428,6 +464,15 @@ def run_omap(ops):
                 del m[gtirb.Offset(elems[op[1]], op[2])]
                 out.append("ok")
                 del naive[op[1]][op[2]]
+            elif k == "iseto":
+                # through the dictionary the mapping hands out, as split.py / join.py do
+                m[elems[op[1]]][op[2]] = op[3]
+                out.append("ok")
+                naive[op[1]][op[2]] = op[3]
+            elif k == "idelo":
+                del m[elems[op[1]]][op[2]]
+                out.append("ok")
+                del naive[op[1]][op[2]]
             elif k == "dele":
                 del m[elems[op[1]]]
                 out.append("ok")
@@ -488,11 +533,11 @@ def omap_line(ops):
     parts = [f"omap {len(ops)}"]
     for op in ops:
         k = op[0]
-        if k in ("geto", "delo", "ino"):
+        if k in ("geto", "delo", "ino", "idelo"):
             parts.append(f"{k} {op[1]} {op[2]}")
         elif k in ("gete", "dele", "ine"):
             parts.append(f"{k} {op[1]}")
-        elif k in ("seto", "sdo"):
+        elif k in ("seto", "sdo", "iseto"):
             parts.append(f"{k} {op[1]} {op[2]} {op[3]}")
         elif k == "sete":
             parts.append(f"sete {op[1]} {len(op[2])} " + " ".join(f"{d} {v}" for d, v in op[2]))
@@ -506,13 +551,13 @@ def omap_line(ops):
 def gen_omap(rnd):
     ops = []
     for _ in range(rnd.randrange(1, 25)):
-        k = rnd.choice(["geto", "gete", "seto", "seto", "seto", "sete", "delo", "dele", "ino", "ine", "len", "bool", "iter", "keys", "popo", "sdo"])
+        k = rnd.choice(["geto", "gete", "seto", "seto", "seto", "sete", "delo", "dele", "ino", "ine", "len", "bool", "iter", "keys", "popo", "sdo", "iseto", "iseto", "idelo"])
         e, d = rnd.randrange(4), rnd.randrange(0, 4)
-        if k in ("geto", "delo", "ino"):
+        if k in ("geto", "delo", "ino", "idelo"):
             ops.append((k, e, d))
         elif k in ("gete", "dele", "ine"):
             ops.append((k, e))
-        elif k in ("seto", "sdo"):
+        elif k in ("seto", "sdo", "iseto"):
             ops.append((k, e, d, rnd.randrange(100)))
         elif k == "sete":
             ds = rnd.sample(range(5), rnd.randrange(0, 3))
@@ -599,7 +644,7 @@ class C20(Prop):
         "extraction: ExtrOcamlBasic only; OCaml driver ocaml/zutil.ml + c20_main.ml",
     ]
     assumptions = ["clients do not assign Symbol.referent directly while a symbol is indirect (the code asserts this)",
-                   "get_references generators are consumed to the end", "blocks handed to one BlockOrdering insertion call are distinct"]
+                   "a get_references generator is either consumed to the end or closed after a number of symbols; which symbols come first is set iteration order, so the model is told", "blocks handed to one BlockOrdering insertion call are distinct"]
     level_rule = ("histories of public operations: all histories of length 2 (quick) / 3 (thorough) over 2 blocks x 2 symbols for ReferenceCache, "
                   "random histories up to length 40 (cycles, self-retargets, no-ops), random histories for the other four containers and the "
                   "return-cache context (incl. exceptions, mutation of the old CFG object, replaced ir.cfg); distinct = distinct history line; "
@@ -641,8 +686,8 @@ class C20(Prop):
         lines, impl, bads = [], [], []
         for kind, c in cases:
             if kind == "refcache":
+                o, bad, _ = run_refcache(c)          # first: an abandoned generator tells which symbols it had yielded
                 lines.append(refcache_line(c))
-                o, bad, _ = run_refcache(c)
             elif kind == "retcache":
                 lines.append(retcache_line(c))
                 o, bad = run_retcache(c)
